@@ -36,6 +36,16 @@ def gen(seed, tier):
         pl["minimize"]["seed"] = seed % 1000003
     if "options" in pl and pl["options"].get("random_seed") is None:
         pl["options"]["random_seed"] = seed % 1000003
+    if "levels" in pl and seed % 13 == 5 and any(l["engine"] == "cma" for l in pl["levels"]):
+        # the largest seeds numpy accepts (CMA-ES demes derive theirs as random_seed + started_at): children can only
+        # be sprouted in metaepoch 1 here, so that the derived seed stays legal
+        pl["options"]["random_seed"] = 2 ** 32 - 2
+        pl["gsc"] = {"kind": "metaepoch_limit", "limit": 2}
+        pl["levels"] = pl["levels"][:2] if pl["levels"][1]["engine"] == "cma" else pl["levels"]
+        if len(pl["levels"]) == 2:
+            pl["level_stack"] = pl["level_stack"][:2]
+            if pl["sprout"].get("generator", {}).get("kind") == "nbc_local":
+                pl["sprout"]["generator"]["kind"] = "nbc"
     if "levels" in pl and seed % 7 == 0:
         P.nan_stratum(pl, seed)  # comparisons of NaN fitness values must not make a seeded run irreproducible
     return pl
